@@ -80,7 +80,9 @@ func (p *TrigPredicate) Value(topics []common.Hash, data []byte) (value []byte, 
 			}
 			copy(v, data[s:e])
 		}
-		return v, end.Cmp(dl) <= 0
+		// (documented for GetValue: a static slice exceeding the data is zero-padded on the
+		// right - so the value is prescribed for every data length, also for truncated data)
+		return v, true
 	}
 	if end.Cmp(dl) > 0 {
 		return nil, false
